@@ -185,6 +185,11 @@ V("C12", "msw_threshold", "violation", (SYSTEM, "                elif nosw < 0:\
 V("C12", "slack_status_ignored", "violation", (SYSTEM, "                    if (u == 1) and (item in island):", "                    if (item in island):"), rule="C12.slack")
 V("C12", "g_islands_before_collect", "violation", (SYSTEM, "        self._e_to_dae(('f', 'g'))\n\n        # reset mismatches for islanded buses\n        self.g_islands()", "        # reset mismatches for islanded buses\n        self.g_islands()\n        self._e_to_dae(('f', 'g'))"), rule="C12.neutralise")
 V("C12", "no_recheck_after_event", "violation", (TDS, "        if ret is True and self.config.check_conn == 1:\n            system.connectivity(info=False)", "        if ret is True and self.config.check_conn == 1:\n            pass"), rule="C12.recheck")
+V("C12", "act_whole_list_sentinel", "violation", (CONN, "                grp_devs_flat = [dev for dev in list_flatten(grp_devs) if dev is not None]\n                if len(grp_devs_flat) > 0:", "                grp_devs_flat = list_flatten(grp_devs)\n                if grp_devs_flat != [None]:"), rule="C12.bus-deps")
+V("C12", "record_overwrites_pending", "violation", (CONN, "        self.changes['off'][...] = np.logical_or(self.changes['off'],\n                                                 np.logical_and(self.busu0 == 1, self.system.Bus.u.v == 0))", "        self.changes['off'][...] = np.logical_and(self.busu0 == 1, self.system.Bus.u.v == 0)"), rule="C12.bus-deps")
+V("C12", "find_idx_first_model_only", "violation", ("andes/models/group.py", "                if item != [default]:\n                    found.extend(item)\n", "                if item != [default]:\n                    found.extend(item)\n                    break\n"), rule="C12.bus-deps")
+V("C12", "act_lookup_first_match_only", "violation", (CONN, "allow_none=True, allow_all=True,\n                                                                   default=None)", "allow_none=True, default=None)"), rule="C12.bus-deps")
+V("C12", "benign_sentinel_loop_filter", "silent", (CONN, "                grp_devs_flat = [dev for dev in list_flatten(grp_devs) if dev is not None]\n", "                grp_devs_flat = []\n                for dev in list_flatten(grp_devs):\n                    if dev is None:\n                        continue\n                    grp_devs_flat.append(dev)\n"))
 V("C12", "benign_bus_deps_order", "silent", (CONN, "    ('StaticLoad', ['bus']),\n    ('StaticShunt', ['bus']),", "    ('StaticShunt', ['bus']),\n    ('StaticLoad', ['bus']),"))
 
 # ---------------- C13
@@ -243,3 +248,22 @@ V("C20", "check_not_raising", "violation", (COMMONF, "            if val not in 
 V("C20", "benign_help_text", "silent", (PFLOW, "report=\"write output report\",", "report=\"write the output report\","))
 
 V("C08", "zero_band_uses_modulus", "violation", (EIG, "np.count_nonzero(abs(mu_real) <= self.config.tol)", "np.count_nonzero(abs(self.mu) <= self.config.tol)"), rule="C08.partition")
+
+# ---------------- second-generation rules (effects, universality, cache/ownership, progression tiling)
+V("C20", "check_reads_cached_view", "violation", (COMMONF, "        for key, val in self.as_dict(refresh=True).items():", "        for key, val in self.as_dict().items():"), rule="C20.cache")
+V("C20", "save_reads_cached_view", "violation", (SYSTEM, "            cfg = instance.config.as_dict(refresh=True)", "            cfg = instance.config.as_dict()"), rule="C20.cache")
+V("C20", "rc_parser_shared", "violation", (SYSTEM, "    conf = configparser.ConfigParser()\n    conf.read(conf_path)\n", "    if conf_path in _rc_seen:\n        return _rc_seen[conf_path]\n    conf = configparser.ConfigParser()\n    conf.read(conf_path)\n    _rc_seen[conf_path] = conf\n"), (SYSTEM, "def load_config_rc(conf_path=None):", "_rc_seen = dict()\n\n\ndef load_config_rc(conf_path=None):"), rule="C20.ownership")
+V("C20", "routine_defaults_in_ctor", "violation", ("andes/routines/base.py", "        self.config = Config(self.class_name)", "        self.config = Config(self.class_name, OrderedDict((('sparselib', 'klu'), ('linsolve', 0))))"), rule="C20.typestate")
+V("C20", "benign_as_dict_positional_refresh", "silent", (COMMONF, "        for key, val in self.as_dict(refresh=True).items():", "        for key, val in self.as_dict(True).items():"))
+V("C14", "load_clears_equations", "violation", (SYSTEM, "    system.set_var_arrays(system.models)\n\n    for model in system.models.values():\n        model.get_inputs(refresh=True)", "    system.set_var_arrays(system.models)\n    system.e_clear(system.models)\n\n    for model in system.models.values():\n        model.get_inputs(refresh=True)"), rule="C14.effects")
+V("C14", "resume_reloads_pflow_solution", "violation", (TDS, "        self.calc_h(resume=True)\n        dae.t += self.h", "        self.calc_h(resume=True)\n        dae.y[:len(system.PFlow.y_sol)] = system.PFlow.y_sol\n        dae.t += self.h"), rule="C14.effects")
+V("C15", "switch_before_store", "violation", (TDS, "            if step_status:\n                if config.save_every != 0:", "            if step_status:\n                self.do_switch()\n                if config.save_every != 0:"), rule="C15.flow")
+V("C15", "benign_log_before_store", "silent", (TDS, "            if step_status:\n                if config.save_every != 0:", "            if step_status:\n                logger.debug('accepted step at t=%s', dae.t)\n                if config.save_every != 0:"))
+V("C11", "tconst_first_state_only", "violation", (MODEL, "                        self.system.TDS.Teye[uid_int[ii], uid_int[ii]] = instance.v[ii]\n", "                        self.system.TDS.Teye[uid_int[ii], uid_int[ii]] = instance.v[ii]\n                    break\n"), rule="C11.tconst")
+V("C11", "p_restore_first_model_only", "violation", (SYSTEM, "            for param in model.num_params.values():\n                param.restore()", "            for param in model.num_params.values():\n                param.restore()\n            break"), rule="C11.universal")
+V("C19", "backref_reset_conditional", "violation", (SYSTEM, "                ref.v = [list() for _ in range(model.n)]", "                if len(ref.v) != model.n:\n                    ref.v = [list() for _ in range(model.n)]"), rule="C19.backref")
+V("C08", "reorder_skips_one_slot_only", "violation", (EIG, "                while (bidx in self.zstate_idx):\n                    bidx += 1", "                if bidx in self.zstate_idx:\n                    bidx += 1"), rule="C08.reorder")
+V("C10", "collated_stride_is_ndevice", "violation", (DAEF, "                out.append(np.arange(idx_begin + idx, idx_end, nvar))", "                out.append(idx_begin + idx + ndevice * np.arange(ndevice))"), rule="C10.tiling")
+V("C10", "benign_collated_progression", "silent", (DAEF, "                out.append(np.arange(idx_begin + idx, idx_end, nvar))", "                out.append(idx_begin + idx + nvar * np.arange(ndevice))"))
+V("C06", "switch_action_first_model_only", "violation", (SYSTEM, "            instance.switch_action(self.dae.t)", "            instance.switch_action(self.dae.t)\n            break"), rule="C06.universal")
+V("C13", "psse_first_load_only", "violation", ("andes/io/psse.py", "        out['PQ'].append(param)\n", "        out['PQ'].append(param)\n        break\n"), rule="C13.universal")
